@@ -127,4 +127,6 @@ def finish(merged: Result, tier: str) -> dict[str, Any]:
     capped = c.get("capped_items", 0)
     if not c.get("conformance_replays"):
         raise Broken("no conformance replay ran")
+    if c.get("conformance_disagreements") and not merged.violations:
+        raise Broken(f"stream model disagrees with real sockets: {merged.notes.get('conformance_disagreement_samples', [])[:1]}")
     return {"conformance_replays": c.get("conformance_replays", 0), "exhaustive": capped == 0, "capped_scenarios": capped, "deviation_bound": 1 if tier == "quick" else 2}
